@@ -315,6 +315,20 @@ LayerParamsS(L, seed) ==
     [] L.kind = "dense" -> [W |-> TLCEval([i \in 1..L.cfg.f |-> TLCEval([j \in 1..L.cfg.c |-> Small(seed, i*11 + j)])]),
                             b |-> TLCEval([i \in 1..L.cfg.f |-> IF L.cfg.bias THEN Small(seed + 5, i) ELSE 0])]
 MkLayerS(kind, hp, P, seed) == LET L0 == NewLayer(kind, hp, P) IN L0 @@ [params |-> LayerParamsS(L0, seed)]
+
+\* Sparse, non-degenerate parameters: identity-like (centre tap / diagonal = 1) plus a few +-1 entries, so that repeated
+\* application neither dies (ReLU, zero kernels) nor explodes beyond exact range
+Sparse(seed, i) == IF Val(seed, i) = 3 THEN 1 ELSE IF Val(seed, i) = -3 THEN -1 ELSE 0
+LayerParamsN(L, seed) ==
+  CASE L.kind \in {"conv", "deconv"} ->
+         [K |-> TLCEval([f \in 1..L.cfg.f |-> TLCEval([ch \in 1..L.cfg.c |-> TLCEval([a \in 1..L.cfg.kh |-> TLCEval([b \in 1..L.cfg.kw |->
+                   (IF a = (L.cfg.kh + 1) \div 2 /\ b = (L.cfg.kw + 1) \div 2 /\ ((f + ch) % 2 = 0 \/ L.cfg.f = 1 \/ L.cfg.c = 1) THEN 1 ELSE 0)
+                   + Sparse(seed, ((f*3 + ch)*5 + a)*7 + b)])])])])]
+    [] L.kind = "pool"  -> [K |-> <<>>]
+    [] L.kind = "dense" -> [W |-> TLCEval([i \in 1..L.cfg.f |-> TLCEval([j \in 1..L.cfg.c |->
+                                      (IF i = j \/ (i > L.cfg.c /\ j = ((i - 1) % L.cfg.c) + 1) THEN 1 ELSE 0) + Sparse(seed, i*11 + j)])]),
+                            b |-> TLCEval([i \in 1..L.cfg.f |-> IF L.cfg.bias THEN Small(seed + 5, i) ELSE 0])]
+MkLayerN(kind, hp, P, seed) == LET L0 == NewLayer(kind, hp, P) IN L0 @@ [params |-> LayerParamsN(L0, seed)]
 \* a complete layer record (announced shapes + seeded parameters) added after output shape P
 MkLayer(kind, hp, P, seed) == LET L0 == NewLayer(kind, hp, P) IN L0 @@ [params |-> LayerParams(L0, seed)]
 =============================================================================
